@@ -195,6 +195,9 @@ func raceKey(rep string) string {
 }
 
 func moreCoverage(pc *propCfg, a *agg, cov map[string]any) {
+	if a.detNote != "" {
+		cov["determinism_selftest"] = a.detNote
+	}
 	if a.yieldPoints != 0 {
 		cov["linsim_yield_points_inserted"] = a.yieldPoints
 	}
@@ -353,32 +356,44 @@ func cmdGen(args []string) int {
 // GOMAXPROCS values and demands bit-identical per-run hashes.
 func selftestDeterminism() int {
 	seed := seedFromEnv()
-	fams := []string{gen.FamWire, gen.FamSubst, gen.FamLife, gen.FamClose, gen.FamConfig, gen.FamCfgMerge, gen.FamEmbed}
+	fams := []string{gen.FamWire, gen.FamSubst, gen.FamLife, gen.FamClose, gen.FamConfig, gen.FamCfgMerge, gen.FamEmbed, gen.FamByName}
 	var progs []*sdl.Program
 	n := envInt("VERIF_DET_PROGS", 48)
 	for i := 0; i < n; i++ {
 		progs = append(progs, gen.Generate(mix(seed, uint64(i)+77), fmt.Sprintf("P%d", i), fams[i%len(fams)]))
 	}
+	bad, procs, runs, trouble := determinismRun(progs, "", seed, envInt("VERIF_DET_PROCS", 30), 5)
+	if trouble != "" {
+		fmt.Println(trouble)
+		return 2
+	}
+	fmt.Printf("determinism: %d processes x %d runs (%d programs, GOMAXPROCS 1/4/16), divergent processes: %d\n", procs, runs, len(progs), bad)
+	if bad != 0 {
+		return 2
+	}
+	return 0
+}
+
+// determinismRun executes the same trace job in `procs` separate processes under
+// GOMAXPROCS 1/4/16 and compares the per-run hashes. property "" = by program family.
+func determinismRun(progs []*sdl.Program, property string, seed uint64, procs, k int) (bad, nprocs, runs int, trouble string) {
 	b, err := buildBatch(progs, false, "det")
 	if err != nil {
 		b.cleanup()
-		fmt.Println(err)
-		return 2
+		return 0, procs, 0, err.Error()
 	}
 	defer b.cleanup()
 	var idx []int
 	for i := range progs {
 		idx = append(idx, i)
 	}
-	procs := envInt("VERIF_DET_PROCS", 30)
 	gmp := []string{"1", "4", "16"}
 	var ref []any
-	bad := 0
-	runs := 0
+	nprocs = procs
 	for round := 0; round < procs; round += 6 {
 		var jobs []*proto.Job
 		for j := 0; j < 6 && round+j < procs; j++ {
-			jobs = append(jobs, &proto.Job{Mode: "trace", Batch: filepath.Join(b.dir, "batch.json"), ProgIdx: idx, K: 5, Seed: seed})
+			jobs = append(jobs, &proto.Job{Mode: "trace", Property: property, Batch: filepath.Join(b.dir, "batch.json"), ProgIdx: idx, K: k, Seed: seed})
 		}
 		// each process gets its own GOMAXPROCS
 		outs := make([]*workerOut, len(jobs))
@@ -394,8 +409,7 @@ func selftestDeterminism() int {
 		wg.Wait()
 		for j, wo := range outs {
 			if wo.res == nil || wo.res.Error != "" {
-				fmt.Printf("process %d: no result: %s\n", round+j, wo.err)
-				return 2
+				return 0, procs, 0, fmt.Sprintf("determinism process %d: no result: %s", round+j, wo.err)
 			}
 			lines := wo.res.Stats.Samples
 			runs = len(lines)
@@ -417,9 +431,5 @@ func selftestDeterminism() int {
 			}
 		}
 	}
-	fmt.Printf("determinism: %d processes x %d runs (%d programs, GOMAXPROCS 1/4/16), divergent processes: %d\n", procs, runs, len(progs), bad)
-	if bad != 0 {
-		return 2
-	}
-	return 0
+	return bad, procs, runs, ""
 }
